@@ -516,7 +516,7 @@ def handle (io : NumIO Î±) (st : DState Î±) (j : Json) : Except String (DState Î
       let name â† (match jfieldOpt j "name" with | none => pure none | some n => do pure (some (â† jstr n)) : P (Option String))
       let ss â† (match jfieldOpt j "src" with | none => pure [] | some s => jstrata s : P Strata)
       let ds â† (match jfieldOpt j "dst" with | none => pure [] | some s => jstrata s : P Strata)
-      let res := Query.queryFlows m name ss ds
+      let res := Query.queryFlowsEnds m name ss ds
       pure (st, okJ [("flows", rnats res)])
   | "timefn" => do
       let fn â† jstr (â† jfield j "fn")
